@@ -622,6 +622,8 @@ class DatasetProcessor:
         write_int(total_assignments, info_dumper)
         write_int(polya_assignments, info_dumper)
         write_list(list(all_read_groups), info_dumper, write_string)
+        # number of unaligned reads: a run that starts from these files (--read_assignments) has no BAM to count them in
+        write_int(self.alignment_stat_counter.stats_dict[AlignmentType.unaligned], info_dumper)
         info_dumper.close()
         open(lock_file, "w").close()
 
@@ -767,6 +769,9 @@ class DatasetProcessor:
         total_assignments = read_int(info_loader)
         polya_assignments = read_int(info_loader)
         all_read_groups = set(read_list(info_loader, read_string))
+        if self.args.read_assignments:
+            # files saved by older versions end here, the count is 0 then
+            self.alignment_stat_counter.add(AlignmentType.unaligned, read_int(info_loader))
         info_loader.close()
         return total_assignments, polya_assignments, all_read_groups
 
